@@ -91,6 +91,12 @@ CHECKS["C15"] = ("model_checking",
     "Element alphabet of 5; one function of two parameters; the local runner.",
     "DESIGN.md §3 C15")
 
+CHECKS["C10"] = ("model_checking",
+    "bounded-exhaustive enumeration of call trees x pre-memoized subsets x invocation modes x backends on the real runner; oracle = provenance record folded from the call tree",
+    "Root plans are all action sequences up to length 2 (quick) / 3 (thorough) over 17 actions (single call, repeated call, batch with a duplicate, failing sub-call caught or uncaught, resource handle, sub-plans to depth 3 over four automatically versioned functions); for every subset of the first 4 (6) distinct sub-invocations memoized beforehand and for single / batch-of-one / batch-of-two invocation on memory, filesystem and filesystem+cache backends, the recorded invocations (order and argument hashes), resources, dependency set and result type of the root AND of every intermediate call must equal the prediction from the tree.",
+    "The functions interpret a plan argument, so all nodes share one static closure; only the local runner.",
+    "DESIGN.md §3 C10")
+
 PENDING = {}
 
 
